@@ -28,7 +28,7 @@ def valid_pool(rng, tier, binary, workdir):
     """list of dicts {fam, time, prog, arrows, pbytes, wbytes, dnodes} of programs that the implementation
     encodes and decodes (via the c01 harness command)"""
     n = 90 if tier == "quick" else 1500
-    cases, _rej, jidx = c01.make_cases(rng, tier, binary, workdir, n_rand=n, n_poly=0, corpus=False)
+    cases, _rej, jidx = c01.make_cases(rng, tier, binary, workdir, n_rand=n, n_poly=0, corpus=False, jet1=False)
     c01._JIDX.update(jidx)
     res = vplib.run_harness(binary, "c01", ["%s %s %s" % (c.cid, c.kind, c.line) for c in cases], workdir=workdir)
     pool = []
